@@ -151,15 +151,6 @@ Definition judge_api (c : api_case) : Z :=
     end
   end.
 
-(* branch tag of a case: 100*class + number of mask pieces that contributed (sparse class only) *)
-Definition tag_api (c : api_case) : Z :=
-  let '(fd, via, args, out) := c in
-  match elemwise Z Z.eqb 0 (ftable fd) (map joperand args) with
-  | OutErr _ => 300
-  | OutDense _ => 200
-  | OutSparse r => 100 + (if existsb (Z.eqb 0) (c_shape r) then 50 else 0) + Z.min 49 (Z.of_nat (length (c_data r)))
-  end.
-
 (* same-shape binary sparse case: the written-out three-mask model equals the general one *)
 Definition judge_elemwise2 (c : (Z * list Z) * coo Z * coo Z) : Z :=
   let '(fd, a, b) := c in
